@@ -5,6 +5,7 @@ def run(ctx):
     ctx.assumptions += [
         "macaroon HMAC chain is unforgeable (symbolic signature model)",
         "model instants are realised by shifting the expiry caveat relative to the real clock; boundaries closer than 2 s to the real clock are not exercised",
+        "the real-time sequence (validate, wait past the expiry, validate again) uses lifetimes of 2-3 s with margins of 0.5 s / 1.5 s; a run too slow to validate within the lifetime is skipped as inconclusive",
     ]
     cfg = "Tokens_gen_%s.cfg" % ctx.tier
     r = ctx.tlc("Tokens_gen", cfg)
@@ -14,3 +15,7 @@ def run(ctx):
                          "distinct = distinct (call, alteration sequence, live/expired, same key, same user, verdict) classes")
     ctx.notes["constants"] = cfg
     ctx.replay_and_compare("c20", r.records)
+    # Issue, Validate, time passes, Validate: one token string presented before and after its expiry in real time
+    # (the only behaviour of Tokens.tla that shifting the expiry caveat cannot realise); lifetimes of 2 and 3 s
+    seq = [{"secret": s, "user": u, "dur": d} for s in ("k1", "k1 ") for u in ("@alice:example.org", "user1") for d in (2, 3)]
+    ctx.replay_and_compare("c20seq", seq)
